@@ -6,6 +6,7 @@ mod common;
 mod decode;
 mod field;
 mod frame;
+mod msm;
 mod replay;
 
 use mc_core::*;
@@ -21,6 +22,7 @@ fn main() {
         "C01" => decode::c01a(&ctx),
         "C02" => decode::c02(&ctx),
         "C07" => bits::c07(&ctx),
+        "C10" => msm::c10(&ctx),
         "C08" => field::c08(&ctx),
         "C11" => field::c11(&ctx),
         "C03" => frame::c03(&ctx),
@@ -42,6 +44,7 @@ pub fn replay_more(kind: &str, r: &serde_json::Value) -> Result<String, String> 
     let o = match kind {
         "bitfield" => bits::replay(r),
         "field_pattern" | "field_value" => field::replay(kind, r),
+        "msm_triple" => msm::replay(kind, r),
         _ => None,
     };
     o.ok_or_else(|| format!("unknown or malformed replay kind {:?}", kind))
